@@ -6,6 +6,7 @@ package main
 
 import (
 	"fmt"
+	"go/ast"
 	"sort"
 	"strings"
 )
@@ -20,6 +21,7 @@ func init() {
 			{"LAY-SHAPE", 8, ruleLayShape},
 			{"LAY-TARGET", 12, ruleLayTarget},
 			{"LAY-REWRITE", 8, ruleLayRewrite},
+			{"PAR-FORCLAUSE", 3, ruleParForClause},
 		},
 	})
 }
@@ -734,4 +736,48 @@ var everyExempt = map[string]string{
 	"const":  "a single value is compiled as tok.Tokens[1], several as its children",
 	"switch": "the tag and the clauses are compiled into variables whose emptiness the paths test",
 	"for":    "an absent condition compiles to no code, which the paths test",
+}
+
+// PAR-FORCLAUSE: in `for init; cond; post {` each clause may be left out. forNud therefore
+// looks at the token where a clause would start (`;` or `{`) before it parses an expression
+// there: a clause parsed unconditionally turns `for ; i < 3; i++ {` into a nil-pointer parse
+// error and `for i := 0; i < 5; {` into a body read as a composite literal.
+func ruleParForClause(c *Ctx, r *R) {
+	fd := c.Func("forNud")
+	if fd == nil {
+		r.undecided("forNud", "-", "not found")
+		return
+	}
+	n, bare := 0, 0
+	ast.Inspect(fd.Body, func(m ast.Node) bool {
+		call, ok := m.(*ast.CallExpr)
+		if !ok || c.CalleeName(call) != "parser.Expression" {
+			return true
+		}
+		guarded, rangeOperand := false, false
+		for p := c.Parent(call); p != nil && p != ast.Node(fd.Body); p = c.Parent(p) {
+			if ifs, ok := p.(*ast.IfStmt); ok {
+				if strings.Contains(nosp(c.Src(ifs.Cond)), "p.Token.Symbol") {
+					guarded = true
+				}
+				if strings.Contains(c.Src(ifs.Cond), `"range"`) {
+					rangeOperand = true // the operand of range is not optional
+				}
+			}
+		}
+		if rangeOperand {
+			return true
+		}
+		n++
+		if !guarded {
+			bare++
+			r.fail(fmt.Sprintf("clause #%d", n), c.Pos(call), "forNud parses a for clause without first looking whether it is there: `for ; i < 3; i++ {`, `for i := 0; i < 5; {` or `for ; ; {` (valid Go) fail with a nil-pointer parse error or read the body as a composite literal")
+		} else {
+			r.ok(fmt.Sprintf("clause #%d", n), "parsed only when the next token does not end the clause")
+		}
+		return true
+	})
+	if n == 0 {
+		r.undecided("forNud", c.Pos(fd), "no clause expression found")
+	}
 }
